@@ -113,6 +113,11 @@ class MediaRequestBase(RequestHandlerBase):
         atom = self.load_fragment(media, 0, options)
         if representation.encrypted:
             keys = models.Key.get_kids(representation.kids)
+            if not keys and options.drmSelection:
+                # e.g. the key has been deleted since the file was indexed
+                # (the manifest of such a stream answers 404 as well)
+                return flask.make_response(
+                    'No key is known for this encrypted media file', 404)
             drms = DrmContext(current_stream, keys, options)
             for drm in drms:
                 if drm.moov is not None:
